@@ -168,7 +168,7 @@ func (p *packageParse) add(id uint16, header *jt808.Header) {
 	p.timeoutRecord[id] = &packageComplete{
 		createTime: now,
 		updateTime: now,
-		initHeader: header,
+		initHeader: copyHeader(header),
 	}
 }
 
